@@ -69,6 +69,43 @@ def h_nf_model_library(ctx, variety):
     ctx.prove('below_gain_min:padding=gain_min-gain', approx(L(padl), d_lin, 1e-9))
 
 
+def h_openroadm_nf(ctx, variety):
+    """OpenROADM noise masks (incremental OSNR as a function of the input power per channel referred to a 50 GHz slot):
+    real Edfa._calc_nf / _nf after a comb on a 50 / 75 / 100 GHz grid set the amplifier up, with a SYMBOLIC total input power:
+    NF = P50 - OSNR_mask(P50) + 58 where P50 = power per channel x 50 GHz / spacing (equal spectral density, equal NF)"""
+    import math
+    from gnpy.core.info import create_arbitrary_spectral_information
+    amp = _amp(variety)
+    spacing = ctx.choice('grid spacing (GHz)', [50, 75, 100]) * 1e9
+    k = 3
+    si = create_arbitrary_spectral_information(frequency=[193.0e12 + i * spacing for i in range(k)], pch=1e-5, baud_rate=32e9,
+                                               tx_osnr=40.0, tx_power=1e-5, slot_width=spacing)
+    amp.effective_gain = 15.0
+    amp.interpol_params(si)                       # sets channel count, grid and interpolated ripples from the comb
+    ptot = ctx.real('total_input_power_dbm', lo=-40, hi=15)
+    amp.pin_db = ptot
+    nf = amp._calc_nf()
+    p50 = ptot - 10 * math.log10(k) + 10 * math.log10(50e9 / spacing)
+    if amp.params.type_def == 'openroadm':
+        osnr = 0
+        for c in amp.params.nf_model.nf_coef:
+            osnr = osnr * p50 + c
+    else:
+        lin = (4 * p50 + 275) / 7
+        # the two sides of the mask's break point (P50 = -11 dBm) are explored separately; the point itself is excluded by 1e-3 dB
+        side = ctx.choice('side of the break point', ['below', 'above'])
+        if side == 'below':
+            ctx.assume(le(p50, -11.001) if ctx.mode == 'sym' else p50 <= -11.001)
+            osnr = lin
+        else:
+            ctx.assume(ge(p50, -10.999) if ctx.mode == 'sym' else p50 >= -10.999)
+            osnr = 33
+    want = p50 - osnr + 58
+    for j in range(k):
+        ctx.prove(f'NF follows the OpenROADM mask at the power per 50 GHz [{j}]', And(le(nf[j] - want, 1e-9), le(want - nf[j], 1e-9)),
+                  info=dict(variety=variety, spacing_ghz=spacing * 1e-9))
+
+
 def h_nf_model_symbolic(ctx):
     """estimate_nf_model on a symbolic datasheet followed by Edfa._nf: NF(gain_flatmax)=nf_min, NF(gain_min)=nf_max within the
     code's own 0.01 dB acceptance, and non-increasing in between"""
@@ -140,6 +177,8 @@ def jobs(tier):
                        params=dict(variety=var, k=2, props=P, history=True), cost=30))
     for var in ('std_high_gain', 'std_medium_gain', 'std_low_gain', 'high_power', 'operator_model_example'):
         js.append(dict(name=f'H4b:nf_model:{var}', fn='h_nf_model_library', params=dict(variety=var)))
+    for var in ('openroadm_ila_low_noise', 'openroadm_ila_standard', 'openroadm_mw_mw_preamp'):
+        js.append(dict(name=f'H4b:openroadm_noise_mask:{var}', fn='h_openroadm_nf', params=dict(variety=var), cost=20))
     for var in ('medium+low_gain', 'medium+high_power', 'hybrid_4pumps_lowgain'):
         js.append(dict(name=f'H4b:dual_stage:{var}', fn='h_dual_stage', params=dict(variety=var)))
     if tier != 'quick':
